@@ -134,6 +134,14 @@ M = [
       old="__FROM_PATCH__", new="", expect="c10.flag|uint::boxed::inv_mod::<impl uint::boxed::BoxedUint>::inv_mod|inv_mod2k|recv=_1", patch="/verif/seeded/C10b/patch.diff"),
  dict(name="boxed_widen_subslice", prop="C12", file="src/uint/boxed.rs",
       old="__FROM_PATCH__", new="", expect="c12.vpfn|uint::boxed::BoxedUint::widen", patch="/verif/seeded/C12e/patch.diff"),
+ dict(name="sqrt_select_guard_swapped", prop="C12", file="src/uint/sqrt.rs",
+      old="            let (q, _) = self.div_rem(&NonZero(Self::select(&Self::ONE, &x, x_nonzero)));",
+      new="            let (q, _) = self.div_rem(&NonZero(Self::select(&x, &Self::ONE, x_nonzero)));",
+      expect="c12.create|uint::sqrt::<impl uint::Uint<_>>::sqrt|non_zero::NonZero"),
+ dict(name="odd_random_wrong_limb", prop="C12", file="src/odd.rs",
+      old="        ret.limbs[0] |= Limb::ONE;\n        Ok(Odd(ret))",
+      new="        ret.limbs[1] |= Limb::ONE;\n        Ok(Odd(ret))",
+      expect="c12.create|<odd::Odd<uint::Uint<_>> as traits::Random>::try_random|odd::Odd"),
  # --- C19
  dict(name="random_mod_core_polarity", prop="C19", file="src/uint/rand.rs",
       old="        if n.ct_lt(modulus).into() {\n            break;", new="        if !bool::from(n.ct_lt(modulus)) {\n            break;",
